@@ -186,9 +186,17 @@ def make_desc(old, route, dest, cfg, pay):
             "shallow": shallow, "deep": deep, "pickle": pickle_, "pay": pay, "dpay": DPAY}
 
 
+WITNESSES = [   # the inputs of the ..._refuted theorems of props/C04.v, replayed on the real code in every run
+    ({"a": 0}, ["edit", [], ["set", "a", typed(1)]], "DAbsent", ("PInit", False, 0, False, False)),
+    ({"a": 0}, ["edit", [], ["set", "a", typed(1)]], "DAbsent", ("PIdFresh", False, 1, False, False)),
+    ({"a": 1}, ["assign", typed({"a": True})], "DAbsent", ("PInit", False, 0, False, False)),
+    ({"a": [1, 2]}, ["assign", typed({"a": [1, 3]})], "DAbsent", ("PInit", False, 0, False, False)),
+]
+
+
 def gen_inputs(tier, rng):
     pairs = list(all_pairs())
-    descs = []
+    descs = [make_desc(old, r, dest, cfg, PAYLOADS[1]) for old, r, dest, cfg in WITNESSES]
     if tier == "quick":
         # a stratified sample: every route kind, every destination, every handle configuration
         rng.shuffle(pairs)
